@@ -1,5 +1,6 @@
 import Pendulum.Proofs.DiffSpec
 import Pendulum.Proofs.LocRange
+import Pendulum.Proofs.DiffDir
 /-! # C18 — human-readable differences are total, localized and correctly directed
 
 Property theorems only. `Gen.Locales.*` (27 locale dictionaries as `Node` trees, templates pre-split into literal /
@@ -197,6 +198,41 @@ theorem within_one_unit (c : Comps) (h : Canon c) (hy : c.years = 0) (hm : c.mon
   all_goals simp only [unitSecs]
   all_goals omega
 
+/-- the week and day **promotions** spelled out: more than 3 remaining days print one more week, 22 hours or more
+print one more day; the printed amount then exceeds the elapsed time by at most 3 days, resp. 2 hours (never by a
+whole unit), and without promotion it falls short by less than 4 days, resp. 22 hours -/
+theorem within_one_unit_promotions (c : Comps) (h : Canon c) (hy : c.years = 0) (hm : c.months = 0) :
+    (c.weeks > 0 → c.days > 3 → selectUnit c = some (.week, c.weeks + 1) ∧
+      0 < (c.weeks + 1) * 604800 - elapsed c ∧ (c.weeks + 1) * 604800 - elapsed c ≤ 3 * 86400) ∧
+    (c.weeks > 0 → c.days ≤ 3 → selectUnit c = some (.week, c.weeks) ∧
+      0 ≤ elapsed c - c.weeks * 604800 ∧ elapsed c - c.weeks * 604800 < 4 * 86400) ∧
+    (c.weeks = 0 → c.days > 0 → c.hours ≥ 22 → selectUnit c = some (.day, c.days + 1) ∧
+      0 < (c.days + 1) * 86400 - elapsed c ∧ (c.days + 1) * 86400 - elapsed c ≤ 2 * 3600) ∧
+    (c.weeks = 0 → c.days > 0 → c.hours < 22 → selectUnit c = some (.day, c.days) ∧
+      0 ≤ elapsed c - c.days * 86400 ∧ elapsed c - c.days * 86400 < 22 * 3600) := by
+  obtain ⟨⟨h1, h2, h3, h4, h5, h6, h7⟩, g1, g2, g3, g4, g5⟩ := h
+  have a : ¬ c.years > 0 := by omega
+  have b : ¬ c.months > 0 := by omega
+  have b' : ¬ (c.months = 11 ∧ c.weeks * 7 + c.days > 15) := by omega
+  unfold elapsed
+  refine ⟨?_, ?_, ?_, ?_⟩
+  · intro hw hd
+    refine ⟨by simp [selectUnit, a, b, b', hw, hd], by omega, by omega⟩
+  · intro hw hd
+    have hd' : ¬ c.days > 3 := by omega
+    refine ⟨by simp [selectUnit, a, b, b', hw, hd'], by omega, by omega⟩
+  · intro hw hd hh
+    have hw' : ¬ c.weeks > 0 := by omega
+    refine ⟨by simp [selectUnit, a, b, b', hw', hd, hh], by omega, by omega⟩
+  · intro hw hd hh
+    have hw' : ¬ c.weeks > 0 := by omega
+    have hh' : ¬ c.hours ≥ 22 := by omega
+    refine ⟨by simp [selectUnit, a, b, b', hw', hd, hh'], by omega, by omega⟩
+
+example : Canon ⟨0, 0, 0, 2, 22, 0, 0, false⟩ ∧ selectUnit ⟨0, 0, 0, 2, 22, 0, 0, false⟩ = some (.day, 3) ∧
+    3 * 86400 - elapsed ⟨0, 0, 0, 2, 22, 0, 0, false⟩ = 7200 := by
+  refine ⟨by simp [Canon, NonNeg], by decide, by decide⟩
+
 /-- calendar units: with `M = 12·years + months` whole months elapsed (plus less than a month), a count of `n` years
 satisfies `12(n−1) < M + 1` and `M < 12(n+1)`; a count of `n` months satisfies `n − 1 ≤ months < n + 1` -/
 theorem within_one_unit_calendar (c : Comps) (h : Canon c) (n : Int) :
@@ -276,6 +312,58 @@ theorem absolute_no_marker (ℓ : Locale) (c : Comps) (isNow isNow' inv' : Bool)
   | some un => simp [mainPlan, stepsUC]
   | none =>
     simp only [fewPlan, mainPlan, stepsUC, if_true]
+
+/-! ### the direction is visible in the *rendered* text, for every count -/
+
+/-- table check behind `rendered_direction_distinct`: for every locale × unit × plural class × {now, other} the chain of
+templates of the future direction and the chain of the past direction, flattened into literal characters and occurrences
+of the count (`Proofs/DiffDir.lean`), differ at a position that does not depend on the count (a literal against a
+different literal, a literal that cannot start an integer against the count, or one text ending first); and the
+"few seconds" text wrapped by `from_now`/`ago` and `after`/`before` gives two different strings -/
+theorem direction_rendered_table : ∀ ℓ ∈ Gen.Locales.all, dirOK ℓ = true := by decide +kernel
+
+/-- **for every locale, every component tuple (hence every unit and every count, of any size and sign) and both
+reference kinds, the phrase rendered for a later instance differs from the phrase rendered for an earlier one** —
+no locale, unit or count where they coincide. (`absolute=True` prints no marker: `absolute_no_marker`.) -/
+theorem rendered_direction_distinct : ∀ ℓ ∈ Gen.Locales.all, ∀ (c : Comps) (isNow : Bool),
+    ∃ sf sp, format ℓ { c with invert := true } isNow false = .ok sf ∧
+      format ℓ { c with invert := false } isNow false = .ok sp ∧ sf ≠ sp := by
+  intro ℓ hℓ c isNow
+  obtain ⟨sf, hf, _, _⟩ := format_diff_total ℓ hℓ { c with invert := true } isNow false
+  obtain ⟨sp, hp, _, _⟩ := format_diff_total ℓ hℓ { c with invert := false } isNow false
+  refine ⟨sf, sp, hf, hp, ?_⟩
+  have := format_dir_ne_of (direction_rendered_table ℓ hℓ) (plural_range ℓ hℓ) c isNow
+  rw [hf, hp] at this
+  intro e; exact this (by rw [e])
+
+/-- the same, per unit and count: the phrase for count `n` of unit `u` (what `format` prints once the unit is selected) -/
+theorem rendered_past_future_distinct : ∀ ℓ ∈ Gen.Locales.all, ∀ (u : TUnit) (n : Int) (isNow : Bool),
+    ∃ pf pp sf sp, mainPlan ℓ u n true isNow false = .ok pf ∧ mainPlan ℓ u n false isNow false = .ok pp ∧
+      pf.run = .ok sf ∧ pp.run = .ok sp ∧ sf ≠ sp := by
+  intro ℓ hℓ u n isNow
+  have hOK := keys_total ℓ hℓ
+  simp only [locOK, Bool.and_eq_true] at hOK
+  obtain ⟨pf, hpf, sf, hsf, _, _⟩ := mainPlan_good hOK.1 (plural_range ℓ hℓ) u n true isNow false
+  obtain ⟨pp, hpp, sp, hsp, _, _⟩ := mainPlan_good hOK.1 (plural_range ℓ hℓ) u n false isNow false
+  refine ⟨pf, pp, sf, sp, hpf, hpp, hsf, hsp, ?_⟩
+  have hD := direction_rendered_table ℓ hℓ
+  simp only [dirOK, Bool.and_eq_true] at hD
+  have := mainPlan_dir_ne hD.1 (plural_range ℓ hℓ) u n isNow
+  simp only [hpf, hpp, hsf, hsp] at this
+  intro e; exact this (by rw [e])
+
+example : okIs (format L_ru.loc ⟨0, 0, 0, 0, 5, 0, 0, true⟩ true false) "через 5 часов" = true ∧
+    okIs (format L_ru.loc ⟨0, 0, 0, 0, 5, 0, 0, false⟩ true false) "5 часов назад" = true := by decide +kernel
+example : okIs (format L_de.loc ⟨2, 0, 0, 0, 0, 0, 0, true⟩ false false) "2 Jahren später" = true ∧
+    okIs (format L_de.loc ⟨2, 0, 0, 0, 0, 0, 0, false⟩ false false) "2 Jahren zuvor" = true := by decide +kernel
+example : okIs (format L_en.loc ⟨0, 0, 0, 0, 0, 0, 3, true⟩ true false) "in a few seconds" = true ∧
+    okIs (format L_en.loc ⟨0, 0, 0, 0, 0, 0, 3, false⟩ true false) "a few seconds ago" = true := by decide +kernel
+/-- the check is not vacuous: identical chains are rejected, and so is a literal digit facing the count
+    (`"1{0}"` and `"{0}1"` render the same text for the count 1) -/
+example : symNe [none, some ' ', some 'x'] [none, some ' ', some 'x'] = false ∧
+    symNe [some '1', none] [none, some '1'] = false ∧
+    evalSym [some '1', none] ['1'] = evalSym [none, some '1'] ['1'] := by decide
+example : dirOK { L_en.loc with data := .dict [] } = false := by decide +kernel
 
 example : okIs (format L_en.loc ⟨0, 0, 0, 3, 0, 0, 0, true⟩ true false) "in 3 days" = true := by decide +kernel
 example : okIs (format L_en.loc ⟨0, 0, 0, 3, 0, 0, 0, true⟩ false false) "3 days after" = true := by decide +kernel
